@@ -1,5 +1,6 @@
 import Proofs.C12Scalar
 import Proofs.C12Coll
+import Proofs.C12Vint
 import Model.MarshalInterp
 /-!
 # C12 — encoded values are the CQL specification's encoding, byte for byte; conformant encodings decode
@@ -252,5 +253,36 @@ theorem C12_cex_tuple_typed_nil :
   have hm : encInt (-1) = [255, 255, 255, 255] := by decide
   refine ⟨?_, ?_, by decide⟩ <;>
     simp [marshal, wrapTuple, marshalTupleIfaces, tupleItem, marshalScalar, marshalVarcharColumn, h0, h1, hm]
+
+/-! ## duration: three zig-zag vints -/
+
+/-- encVint = the specification's signed vint (zig-zag, then the unsigned vint whose first byte announces the number
+    of extra bytes by its leading one bits, 1..9 bytes) for every int64; encIntZigZag = zig-zag -/
+theorem C12_vint (n : Int) (h : fitsS 8 n = true) :
+    encVint n = specVint n ∧ encIntZigZag n = zigzag n ∧ unzigzag (zigzag n) = n :=
+  ⟨C12Vint.encVint_spec n h, C12Vint.encIntZigZag_spec n h, C12Vint.unzigzag_zigzag n⟩
+
+theorem fits4_fits8 (m : Int) (h : fitsS 4 m = true) : fitsS 8 m = true := by
+  simp [fitsS, leB_iff, ltB_iff] at h ⊢; omega
+
+/-- gocql.Duration, time.Duration and int64 bound to a duration column: months, days, nanoseconds as three vints -/
+theorem C12_duration_conforms (p : Nat) (m d n : Int) (hm : fitsS 4 m = true) (hd : fitsS 4 d = true) (hn : fitsS 8 n = true) :
+    marshalScalar .duration (.cqldur m d n) = .ok (specEnc p .duration (.duration m d n)) ∧
+    marshalScalar .duration (.dur n) = .ok (specEnc p .duration (.duration 0 0 n)) ∧
+    marshalScalar .duration (.int .int64 false n) = .ok (specEnc p .duration (.duration 0 0 n)) := by
+  have h0 : fitsS 4 0 = true := by decide
+  have e0 := C12Vint.encVint_spec 0 (by decide)
+  refine ⟨?_, ?_, ?_⟩ <;>
+    simp [marshalScalar, specEnc, encVints, hm, hd, hn, h0, e0,
+      C12Vint.encVint_spec m (fits4_fits8 m hm), C12Vint.encVint_spec d (fits4_fits8 d hd), C12Vint.encVint_spec n hn]
+
+/-- FULL STATEMENT (does not hold): every int64-kinded Go value bound to duration is written as vints.  A NAMED int64
+    type other than time.Duration takes the reflect.Int64 fallback and is written as 8 raw bytes (D8).
+    = replay input `enc 4 duration ni int64 1` -/
+theorem C12_cex_duration_named_int64 :
+    marshalScalar .duration (.int .int64 true 1) = .ok (some [0, 0, 0, 0, 0, 0, 0, 1]) ∧
+    specEnc 4 .duration (.duration 0 0 1) = some [0, 0, 2] := by
+  have : encBigInt 1 = [0, 0, 0, 0, 0, 0, 0, 1] := by decide
+  refine ⟨by simp [marshalScalar, this], by decide⟩
 
 end C12
